@@ -10,6 +10,9 @@ Require Import Lia.
 Definition good (ext8 : bool) (D0 : bytes) (st : St) (t : bytes) : Prop :=
   exists X, outof st = D0 ++ X /\ wire ext8 X t /\ legal_line ext8 t /\ (lastlf st = true -> t = []).
 
+Lemma outof_wr st x : outof (wr st x) = outof st ++ x.
+Proof. unfold outof, wr. cbn [out rev]. rewrite concat_app. cbn [concat]. now rewrite app_nil_r. Qed.
+
 Lemma legal_nil ext8 : legal_line ext8 [].
 Proof. repeat split; try constructor; try discriminate. cbn. lia. Qed.
 
